@@ -416,6 +416,14 @@ def crop_checks(recs, lay, m, entry, events):
                         {'index': repr(idx)}, ev=ev))
 
 
+# names of request ordinals (arguments of the read API and values derived from user coordinates): arbitrary integers by
+# nature, so conclusions about them are legitimate; every other opaque-born quantity is an internal value the evaluator
+# failed to express
+_REQUEST_NAMES = {'il_id', 'xl_id', 'zslice_id', 'index', 'il_no', 'xl_no', 'i', 'x', 'z', 'il', 'xl', 'min_il', 'max_il',
+                  'min_xl', 'max_xl', 'min_z', 'max_z', 'min_trace', 'max_trace', 'min_id', 'max_id', 'cd_id', 'ad_id',
+                  'min_sample_id', 'max_sample_id', 'trace_id'}
+
+
 def report(ctx, recs, mapping, select=lambda r: True):
     """fold per-(mode, entry) records into one obligation per (rule, site): holds iff it holds in every mode."""
     groups = {}
@@ -428,9 +436,11 @@ def report(ctx, recs, mapping, select=lambda r: True):
         rule = mapping[rs[0].rule]
         bad = [r for r in rs if not r.ok]
         modes = sorted({r.mode for r in rs})
-        NOT_UNDERSTOOD = ('not a polynomial', 'do not normalise', 'does not normalise', 'non-polynomial slice')
+        NOT_UNDERSTOOD = ('not a polynomial', 'do not normalise', 'does not normalise', 'non-polynomial slice', '?<')
+        from .symeval import OPAQUE_BORN
         for r in bad:
-            if any(k in r.msg for k in NOT_UNDERSTOOD):
+            if any(k in r.msg for k in NOT_UNDERSTOOD) or any((nm + '.') in r.msg or (nm + ' ') in r.msg for nm in OPAQUE_BORN
+                                                              if not nm.split('@')[0] in _REQUEST_NAMES):
                 # a quantity the evaluator could not express: the construct was not understood, which is not evidence
                 # of a wrong address
                 r.extra['unknown'] = True
